@@ -5,6 +5,7 @@
 // Component "once" — script steps (i = index of the i-th `resolve` step = its call id):
 //
 //	resolve          start Once.Resolve(ctx) in its own goroutine with a fresh context
+//	burst k          k such calls released together from behind a barrier
 //	cancel i         cancel the context of resolve i
 //	out ok|err|errc  queue an outcome for the wrapped function: the next (or the running) call of
 //	                 the function consumes it and returns value f+1 / error custom(f+1) /
@@ -14,7 +15,7 @@
 //	open g
 //	pause, settle, quiesce
 //
-// Component "memo" — steps: call | out v e | gate | open | pause | settle | quiesce
+// Component "memo" — steps: call | burst k | out v e | gate | open | pause | settle | quiesce
 // (`gate` holds the winner of the swap at `yield-memo`, before it enters the function).
 package once
 
@@ -23,8 +24,10 @@ import (
 	"fmt"
 	"math/rand"
 	"strconv"
+	"runtime"
 	"strings"
 	"sync"
+	"sync/atomic"
 	"time"
 
 	"github.com/aperturerobotics/util/memo"
@@ -53,6 +56,34 @@ func errName(err error) string {
 }
 
 type ctxKey struct{}
+
+// spinBarrier releases k goroutines within a few nanoseconds of each other (a channel close wakes
+// them one after the other, microseconds apart, which never overlaps two-instruction windows).
+type spinBarrier struct {
+	k     int32
+	ready atomic.Int32
+	open  atomic.Bool
+}
+
+func newBarrier(k int) *spinBarrier { return &spinBarrier{k: int32(k)} }
+
+func (b *spinBarrier) wait() {
+	b.ready.Add(1)
+	deadline := time.Now().Add(50 * time.Millisecond)
+	for i := 0; !b.open.Load(); i++ {
+		if i%1024 == 1023 && time.Now().After(deadline) {
+			return
+		}
+	}
+}
+
+func (b *spinBarrier) release() {
+	deadline := time.Now().Add(20 * time.Millisecond)
+	for b.ready.Load() < b.k && time.Now().Before(deadline) {
+		runtime.Gosched()
+	}
+	b.open.Store(true)
+}
 
 func execOnce(script []string, opt comp.Options) comp.Result {
 	log := hist.New()
@@ -120,6 +151,27 @@ func execOnce(script []string, opt comp.Options) comp.Result {
 			g.Open()
 		}
 	}
+	startResolve := func(barrier *spinBarrier) {
+		c := &call{}
+		c.id = log.Inv("resolve")
+		ctx, cancel := context.WithCancel(context.WithValue(context.Background(), ctxKey{}, c.id))
+		c.cancel = cancel
+		calls = append(calls, c)
+		wg.Add(1)
+		go func() {
+			defer wg.Done()
+			defer func() {
+				if r := recover(); r != nil {
+					log.Ret(c.id, "resolve panic")
+				}
+			}()
+			if barrier != nil {
+				barrier.wait()
+			}
+			v, err := o.Resolve(ctx)
+			log.Ret(c.id, "resolve %d %s", v, errName(err))
+		}()
+	}
 	for _, step := range script {
 		f := strings.Fields(step)
 		if len(f) == 0 {
@@ -127,22 +179,21 @@ func execOnce(script []string, opt comp.Options) comp.Result {
 		}
 		switch f[0] {
 		case "resolve":
-			c := &call{}
-			c.id = log.Inv("resolve")
-			ctx, cancel := context.WithCancel(context.WithValue(context.Background(), ctxKey{}, c.id))
-			c.cancel = cancel
-			calls = append(calls, c)
-			wg.Add(1)
-			go func() {
-				defer wg.Done()
-				defer func() {
-					if r := recover(); r != nil {
-						log.Ret(c.id, "resolve panic")
-					}
-				}()
-				v, err := o.Resolve(ctx)
-				log.Ret(c.id, "resolve %d %s", v, errName(err))
-			}()
+			startResolve(nil)
+		case "burst":
+			// k Resolve calls released together from behind a barrier (all inv lines are logged first)
+			if len(f) < 2 {
+				continue
+			}
+			k, err := strconv.Atoi(f[1])
+			if err != nil || k < 1 || k > 6 {
+				continue
+			}
+			barrier := newBarrier(k)
+			for j := 0; j < k; j++ {
+				startResolve(barrier)
+			}
+			barrier.release()
 		case "cancel":
 			if len(f) < 2 {
 				continue
@@ -252,6 +303,10 @@ func genOnce(rng *rand.Rand, tier string) []string {
 	for i := 0; i < steps; i++ {
 		r := rng.Intn(100)
 		switch {
+		case r < 8 && nc+3 <= maxC:
+			k := 2 + rng.Intn(2)
+			out = append(out, fmt.Sprintf("burst %d", k), "settle")
+			nc += k
 		case r < 32 && nc < maxC:
 			out = append(out, "resolve")
 			nc++
@@ -312,6 +367,29 @@ func execMemo(script []string, opt comp.Options) comp.Result {
 			g.Open()
 		}
 	}
+	startCall := func(barrier *spinBarrier) {
+		id := log.Inv("memo")
+		wg.Add(1)
+		go func() {
+			defer wg.Done()
+			defer func() {
+				if r := recover(); r != nil {
+					log.Ret(id, "memo panic")
+				}
+			}()
+			if barrier != nil {
+				barrier.wait()
+			}
+			v, err := fn()
+			e := 0
+			if err == errMemo {
+				e = 1
+			} else if err != nil {
+				e = 2
+			}
+			log.Ret(id, "memo %d %d", v, e)
+		}()
+	}
 	for _, step := range script {
 		f := strings.Fields(step)
 		if len(f) == 0 {
@@ -319,24 +397,20 @@ func execMemo(script []string, opt comp.Options) comp.Result {
 		}
 		switch f[0] {
 		case "call":
-			id := log.Inv("memo")
-			wg.Add(1)
-			go func() {
-				defer wg.Done()
-				defer func() {
-					if r := recover(); r != nil {
-						log.Ret(id, "memo panic")
-					}
-				}()
-				v, err := fn()
-				e := 0
-				if err == errMemo {
-					e = 1
-				} else if err != nil {
-					e = 2
-				}
-				log.Ret(id, "memo %d %d", v, e)
-			}()
+			startCall(nil)
+		case "burst":
+			if len(f) < 2 {
+				continue
+			}
+			k, err := strconv.Atoi(f[1])
+			if err != nil || k < 1 || k > 6 {
+				continue
+			}
+			barrier := newBarrier(k)
+			for j := 0; j < k; j++ {
+				startCall(barrier)
+			}
+			barrier.release()
 		case "out":
 			if len(f) < 3 {
 				continue
@@ -412,6 +486,10 @@ func genMemo(rng *rand.Rand, tier string) []string {
 	for i := 0; i < steps; i++ {
 		r := rng.Intn(100)
 		switch {
+		case r < 12 && nc+3 <= maxC:
+			k := 2 + rng.Intn(2)
+			out = append(out, fmt.Sprintf("burst %d", k), "settle")
+			nc += k
 		case r < 50 && nc < maxC:
 			out = append(out, "call")
 			nc++
@@ -450,6 +528,8 @@ func init() {
 			{"resolve", "settle", "resolve", "resolve", "settle", "resolve", "resolve", "settle", "resolve", "settle", "out ok", "quiesce", "resolve", "resolve", "cancel 7", "quiesce"},
 			// failure, retry, failure, retry; a caller that arrives between publication and its own wake-up
 			{"resolve", "settle", "out err", "settle", "resolve", "settle", "out err", "settle", "resolve", "resolve", "settle", "out ok", "quiesce"},
+			// simultaneous start decisions
+			{"burst 4", "settle", "out err", "settle", "burst 2", "settle", "out ok", "quiesce"},
 			// already-cancelled context
 			{"resolve", "cancel 0", "settle", "out ok", "quiesce", "resolve", "cancel 1", "quiesce"},
 		},
@@ -461,6 +541,7 @@ func init() {
 			{"gate", "call", "settle", "call", "call", "settle", "open", "settle", "quiesce", "out 7 0", "quiesce", "call", "quiesce"},
 			{"call", "call", "call", "settle", "out 3 1", "quiesce", "call", "out 5 0", "quiesce"},
 			{"out 4 0", "call", "call", "quiesce"},
+			{"burst 4", "settle", "out 2 0", "quiesce"},
 		},
 	})
 }
